@@ -1,4 +1,5 @@
 import USimModel.Judge.Trace
+import USimModel.Prim.Pipe
 /-
 The properties as executable predicates on traces.  Every judge returns the list of clauses of
 the property's statement that the trace violates (`[]` = the trace satisfies the property).
@@ -503,5 +504,48 @@ def judgeC20 (o : Obs) (spinners : Nat) : Verdict :=
       fail (!((idx o).any (fun p => p.2 > i && p.2 < j && p.1.tag == "log" && arg p.1 0 == 200 + (s : Int))))
         s!"the operation completed before runnable activity {s} got its turn")
   | _, _ => []
+
+/-! ### C13 - pipes: the fluid model replayed over the implementation's trace -/
+
+/-- how far a completion may be from the fluid model's (floating point rounding of the
+implementation; the judge itself is exact) -/
+def pipeTol (x : USim.Prim.Pipe.Xfer) : Rat := (x.total + 1) / 1000000000
+
+structure PipeJ where
+  now : Rat := 0
+  active : List USim.Prim.Pipe.Xfer := []
+  out : Verdict := []
+
+/-- `tstart [pipe, hasLimit, total n/d, limit n/d]`, `tdone [pipe]`, `tabort [pipe]` -/
+def judgeC13 (o : Obs) (pipes : List (Option Rat)) : Verdict :=
+  let overdue (st : PipeJ) (t : Rat) : Verdict :=
+    st.active.flatMap (fun x => fail (x.remaining < -(pipeTol x))
+      s!"transfer of activity {x.id} (volume {x.total}, limit {x.limit}, started at {x.started}) is still running at {t} although the integral of its rate reached its volume earlier (excess {-x.remaining})")
+  let step (st : PipeJ) (e : Ev) : PipeJ :=
+    if e.tag != "tstart" && e.tag != "tdone" && e.tag != "tabort" then st else
+    let active := USim.Prim.Pipe.advance pipes st.active (e.time - st.now)
+    let st := { st with now := e.time, active := active }
+    let st := { st with out := st.out ++ overdue st e.time }
+    if e.tag == "tstart" then
+      let p := arg e 0
+      let total := ratArg (arg e 2) (arg e 3)
+      let thr := (pipes[p.toNat]?).getD none
+      let instant := total == 0 || (thr.isNone && arg e 1 == 0)
+      let limit : Rat := if instant then 0 else if arg e 1 == 1 then ratArg (arg e 4) (arg e 5) else thr.getD 0
+      { st with active := st.active ++ [{ id := e.label, pipe := p, limit := limit, remaining := if instant then 0 else total,
+                                          total := total, started := e.time }] }
+    else
+      match st.active.find? (·.id == e.label) with
+      | none => { st with out := st.out ++ [s!"activity {e.label}: {e.tag} without a transfer"] }
+      | some x =>
+        let st := { st with active := st.active.filter (·.id != e.label) }
+        if e.tag == "tdone" then
+          { st with out := st.out ++ (
+              fail (x.remaining > pipeTol x) s!"transfer of activity {x.id} (volume {x.total}, limit {x.limit}, started at {x.started}) completed at {e.time} but only {x.total - x.remaining} of its volume fits the shared rates until then" ++
+              fail (x.limit == 0 && e.time != x.started) s!"zero-volume / unlimited transfer of activity {x.id} took from {x.started} to {e.time}") }
+        else st
+  let st := o.events.foldl step {}
+  let fin := { st with active := USim.Prim.Pipe.advance pipes st.active (o.final - st.now) }
+  st.out ++ (if o.final ≥ st.now then overdue fin o.final else [])
 
 end USim.Judge
